@@ -97,6 +97,8 @@ def search(chk, broken):
     def close(a, b, rel, abs_=1e-12):
         return abs(a - b) <= rel * max(abs(a), abs(b)) + abs_
     for _ in range(n):
+        if chk.over():
+            break
         cfg = sg.gen_config(rng, 0.7)
         calc = pbc.Calculator(_config=cfg)
         shot, _ = sg.gen_shot(pbc, rng, flat=rng.random() < 0.6, allow_cant=False)
